@@ -1,7 +1,99 @@
-import XpmVerif.Model.Sched
+import XpmVerif.Proofs.SchedCap
 import XpmVerif.Generated.SchedFlags
+/-! C08 "Jobs running under a token never hold more than its capacity" — theorems over ALL reachable states of
+    the scheduler model M2 (`Model/Sched.lean`): `Reachable fl totals s` = `s` is the result of ANY list of events
+    (submissions of any jobs with any dependencies, callbacks, helper-thread completions in any order, `wait`)
+    applied to `St.init totals`, for ANY token table `totals` and ANY repair flags `fl` (none of the three
+    scheduler repairs is needed for this property; no well-formedness of the submitted dependencies either).
+    Definitions (`Proofs/SchedCap.lean`): `tokCount o t` = the count of origin `o` if it is token `t`, else 0;
+    `heldTok jb t` = Σ of the counts of the token-`t` dependencies whose index is in `jb.held` (with
+    multiplicity); `request jb t` = Σ of the counts of ALL token-`t` dependencies of `jb`;
+    `sumTo n f` = Σ_{j<n} f j.  Invariant and proofs: `Proofs/SchedCap.lean`. -/
 namespace XpmVerif.C08
 open XpmVerif.Sched
+
 /-- obligation on the current source: the three scheduler repairs are present. -/
 theorem scheduler_flags : Gen.schedFlags = { readyGuarded := true, resubmitRegisters := true, abortRechecks := true } := by decide
+
+/-- the capacity of a token is the configured one, forever (`total` is what `capacity` compares with). -/
+theorem total_is_configured (fl : Flags) (totals : List Nat) (s : St) (h : Reachable fl totals s) (t : Nat) :
+    s.total t = totals.getD t 0 := by
+  rw [h.total]
+
+/-- `capacity`: in every reachable state, for every token `t` (registered or not): what is available plus what
+    the submitted jobs hold is exactly the capacity, and the available amount is never negative. -/
+theorem capacity (fl : Flags) (totals : List Nat) (s : St) (h : Reachable fl totals s) (t : Nat) :
+    s.avail t + (sumTo s.n (fun j => heldTok (s.jobs j) t) : Nat) = (s.total t : Int) ∧ 0 ≤ s.avail t := by
+  obtain ⟨N, hi⟩ := h.inv
+  exact hi.cap t
+
+/-- a job whose process is running (`state = running`; more generally any job between its launch and the
+    processing of its exit code, `pc ∈ {lockExitRun, codeWait}`) holds ALL its dependency locks. -/
+theorem running_holds_all (fl : Flags) (totals : List Nat) (s : St) (h : Reachable fl totals s) (j : Nat) :
+    ((s.jobs j).state = .running → (s.jobs j).pc = .lockExitRun ∨ (s.jobs j).pc = .codeWait) ∧
+    ((s.jobs j).pc = .lockExitRun ∨ (s.jobs j).pc = .codeWait →
+      (s.jobs j).held = List.range (s.jobs j).deps.length ∧ ∀ t, heldTok (s.jobs j) t = request (s.jobs j) t) := by
+  obtain ⟨N, hi⟩ := h.inv
+  obtain ⟨_, h2, h3⟩ := hi.job j
+  constructor
+  · intro hs; have := h3 hs; revert this; cases (s.jobs j).pc <;> simp [PC.run]
+  · intro hp
+    have : (s.jobs j).pc.run = true := by rcases hp with e | e <;> rw [e] <;> rfl
+    exact ⟨h2 this, heldTok_all (h2 this)⟩
+
+/-- the property's sentence: in every reachable state, the jobs whose process is running under token `t`
+    (state RUNNING) together request — and hold — at most the capacity of `t`. -/
+theorem running_within_capacity (fl : Flags) (totals : List Nat) (s : St) (h : Reachable fl totals s) (t : Nat) :
+    sumTo s.n (fun j => if (s.jobs j).state = .running then request (s.jobs j) t else 0) ≤ s.total t := by
+  obtain ⟨N, hi⟩ := h.inv
+  exact hi.running_le t
+
+/-- the same for the larger set of jobs between launch and the processing of the exit code (the process may
+    already have exited, or the state may have been overwritten by a late notification: the tokens are still
+    accounted for). -/
+theorem launched_within_capacity (fl : Flags) (totals : List Nat) (s : St) (h : Reachable fl totals s) (t : Nat) :
+    sumTo s.n (fun j => if (s.jobs j).pc = .lockExitRun ∨ (s.jobs j).pc = .codeWait then request (s.jobs j) t else 0)
+      ≤ s.total t := by
+  obtain ⟨N, hi⟩ := h.inv
+  refine Nat.le_trans (Nat.le_of_eq ?_) (hi.launched_le t)
+  apply sumTo_congr; intro i _
+  cases (s.jobs i).pc <;> simp [PC.run]
+
+/-- locks are held only while a start is being aborted or the job is launched: between two steps a job that
+    holds something waits for the job-lock release thread (`lockExitAbort`, `lockExitRun`) or for its exit code
+    (`codeWait`).  (Acquisition happens atomically inside the step that resumes `lockEnter`, so `lockEnter`
+    itself never holds anything between steps.)  Jobs not yet submitted hold nothing. -/
+theorem held_only_while_starting_or_running (fl : Flags) (totals : List Nat) (s : St) (h : Reachable fl totals s) (j : Nat) :
+    (s.jobs j).held ≠ [] →
+      j < s.n ∧ ((s.jobs j).pc = .lockExitAbort ∨ (s.jobs j).pc = .lockExitRun ∨ (s.jobs j).pc = .codeWait) := by
+  obtain ⟨N, hi⟩ := h.inv
+  intro hh
+  have h1 := (hi.job j).1 hh
+  constructor
+  · have := hi.2.1 j
+    have := hi.2.2.1
+    by_cases hj : j < s.n
+    · exact hj
+    · have hp : (s.jobs j).pc = .none := by apply hi.2.1; omega
+      rw [hp] at h1; simp [PC.holds] at h1
+  · revert h1; cases (s.jobs j).pc <;> simp [PC.holds]
+
+/-- `released_on_every_exit` (for C09): the step that resumes a job after an aborted start (`lockExitAbort`)
+    or after its exit code arrived (`codeWait`: success or failure) leaves it holding nothing, gives back to every
+    token exactly what the job held, and does not touch what other jobs hold.  Holds in ANY state. -/
+theorem released_on_every_exit (fl : Flags) (s : St) (j : Nat)
+    (hpc : (s.jobs j).pc = .lockExitAbort ∨ (s.jobs j).pc = .codeWait) :
+    ((s.resume fl j).jobs j).held = [] ∧
+    (∀ t, (s.resume fl j).avail t = s.avail t + (heldTok (s.jobs j) t : Nat)) ∧
+    (∀ i, i ≠ j → ((s.resume fl j).jobs i).held = (s.jobs i).held) :=
+  resume_releases fl s j hpc
+
+/-- consequence for C09: in a reachable state with nothing left to run (empty ready queue, no pending helper
+    thread) nobody holds anything and every token is full again. -/
+theorem idle_full (fl : Flags) (totals : List Nat) (s : St) (h : Reachable fl totals s)
+    (hr : s.ready = []) (ht : s.threads = []) (t : Nat) :
+    s.avail t = s.total t ∧ ∀ j, (s.jobs j).held = [] := by
+  obtain ⟨N, hi⟩ := h.inv
+  exact hi.idle_full hr ht t
+
 end XpmVerif.C08
